@@ -268,7 +268,7 @@ func headBytes(b []byte, n int) []byte {
 func runC14(r *vf.Run) {
 	r.Rule("one evaluation = one request: (in process) a wire-reachable message given to convert.ToQuery + Index.Execute under recover, or (real server) raw request bytes delivered through a pass-through gRPC codec, " +
 		"each followed by a well-formed probe request with a known answer; the server process must stay alive, keep answering and answer the probe correctly; " +
-		"a concurrent phase sends the hostile requests mixed with well-formed queries of known answer from 16 clients at once (default and tiny cache); requests: every single and every pair of structural omissions at every position of valid seed trees, random field combinations, mutated wire encodings, nesting up to the decoder's limit, group-by lists of 7..130, 200 and 500 entries naming one or two low-cardinality columns, long names with multi-byte characters around byte counts 16..4096, slow requests (deep chain, 100 000 operands, 10 000 members) carrying a malformed member; " +
+		"a concurrent phase sends the hostile requests mixed with well-formed queries of known answer from 16 clients at once (default and tiny cache); requests: every single and every pair of structural omissions at every position of valid seed trees, random field combinations, mutated wire encodings, nesting up to the decoder's limit, group-by lists of 7..130, 200 and 500 entries naming one or two low-cardinality columns, long names with multi-byte characters around byte counts 16..4096, slow requests (deep chain, 100 000 operands, 10 000 members) carrying a malformed member, operators of 4..40 operands with one to all operands failing; two of the ten probes are operators of eight and more operands side by side / nested; " +
 		"distinct_nontrivial = distinct request byte strings")
 	r.Assume("nesting <= protobuf-go's decode recursion limit (10000 messages)", "message size <= gRPC's 4 MiB default", "a response to a malformed-but-decodable query is not checked for content, only that it is a response or an RPC error")
 	rng := r.RNG("c14")
@@ -296,11 +296,31 @@ func runC14(r *vf.Run) {
 	// well-formed probes with known answers (leaf, NOT, AND/OR, group-by), used in rotation after every hostile request
 	var probes []c04Query
 	var probeBs [][]byte
-	for i := 0; i < 8; i++ {
+	wideProbe := func(nested bool) *oracle.Expr {
+		// two operators of eight and more operands each, side by side or one inside the other
+		mk := func(op byte, n int) *oracle.Expr {
+			x := &oracle.Expr{Op: op}
+			for k := 0; k < n; k++ {
+				x.Kids = append(x.Kids, gen.Leaf(rng, ds, cols))
+			}
+			return x
+		}
+		if nested {
+			in := mk('|', 9)
+			out := mk('&', 8)
+			out.Kids[3] = oracle.Not(in)
+			return out
+		}
+		return oracle.Or(mk('&', 8), mk('&', 10), mk('|', 8))
+	}
+	for i := 0; i < 10; i++ {
 		e := []*oracle.Expr{probeE, oracle.Not(probeE), gen.Expr(rng, ds, cols, 2, 3), gen.Expr(rng, ds, cols, 3, 2)}[i%4]
 		var gb []string
 		if i >= 4 {
 			gb = gen.GroupBy(rng, ds, 1+i%2, 500)
+		}
+		if i >= 8 {
+			e, gb = wideProbe(i == 9), nil
 		}
 		q := c04Query{E: e, GB: gb, Want: oracle.Eval(ds.Rows, ds.Cols, e, gb)}
 		bts, _ := proto.Marshal(&pb.QueryRequest{Queries: []*pb.Query{{Id: 99, Expr: e.ToProto(), GroupBy: gb}}})
@@ -485,6 +505,56 @@ func runC14(r *vf.Run) {
 			for bn, bq := range bad {
 				addMsg(fmt.Sprintf("slow-then-bad/%s/%s", sn, bn), "slow-request-with-malformed-member", &pb.QueryRequest{Queries: append(append([]*pb.Query{}, sq...), bq)})
 				addMsg(fmt.Sprintf("bad-then-slow/%s/%s", sn, bn), "slow-request-with-malformed-member", &pb.QueryRequest{Queries: append([]*pb.Query{bq}, sq...)})
+			}
+		}
+	}
+	// 2h. wide operators (4 to 40 operands) in which one, two or more operands fail (unknown column, unset comparison,
+	// empty expression), at the start, in the middle and at the end, plain and below deep NOT chains; each three times
+	// (whatever evaluates operands side by side sees the failures in another order each time)
+	{
+		failing := func(kind, depth int) *pb.Query_Expression {
+			var f *pb.Query_Expression
+			switch kind % 3 {
+			case 0:
+				f = oracle.Eq(fmt.Sprintf("nosuch%d", kind), "x").ToProto()
+			case 1:
+				f = &pb.Query_Expression{}
+			default:
+				f = &pb.Query_Expression{Value: &pb.Query_Expression_Not_{Not: &pb.Query_Expression_Not{}}}
+			}
+			for i := 0; i < depth; i++ {
+				f = &pb.Query_Expression{Value: &pb.Query_Expression_Not_{Not: &pb.Query_Expression_Not{Expr: f}}}
+			}
+			return f
+		}
+		for _, n := range []int{4, 5, 8, 9, 16, 17, 40} {
+			for _, fails := range []int{1, 2, 3, n} {
+				for _, depth := range []int{0, 300} {
+					for rep := 0; rep < 3; rep++ {
+						var ops []*pb.Query_Expression
+						for k := 0; k < n; k++ {
+							ops = append(ops, []*oracle.Expr{a, b, c}[k%3].ToProto())
+						}
+						for f := 0; f < fails && f < n; f++ {
+							pos := []int{n - 1, 0, n / 2}[f%3]
+							if fails == n {
+								pos = f
+							}
+							kind := f + rep
+							if rep != 1 {
+								kind = 3 * (f + rep) // every failing operand names an unknown column: all of them fail at evaluation time
+							}
+							ops[pos] = failing(kind, depth)
+						}
+						var pe *pb.Query_Expression
+						if (n+fails+rep)%2 == 0 {
+							pe = &pb.Query_Expression{Value: &pb.Query_Expression_And_{And: &pb.Query_Expression_And{Exprs: ops}}}
+						} else {
+							pe = &pb.Query_Expression{Value: &pb.Query_Expression_Or_{Or: &pb.Query_Expression_Or{Exprs: ops}}}
+						}
+						addMsg(fmt.Sprintf("wide-failing/n%d/f%d/d%d/r%d", n, fails, depth, rep), "wide-operator-with-failing-operands", &pb.QueryRequest{Queries: []*pb.Query{{Expr: pe, GroupBy: []string{cols[0]}}}})
+					}
+				}
 			}
 		}
 	}
@@ -768,7 +838,7 @@ func runC14(r *vf.Run) {
 			if err == nil {
 				plog, _ := os.Create(filepath.Join(dir, "requests-"+strings.ReplaceAll(name, "/", "-")+"-probes.log"))
 				srv := &c14Server{r: r, sp: sp, conn: conn, probes: probes, probeBs: probeBs, reqLog: plog, codes: map[string]int{}}
-				for i := 0; i < 8 && !srv.dead; i++ {
+				for i := 0; i < len(probeBs) && !srv.dead; i++ {
 					srv.send(fmt.Sprintf("%s/probe-after/%d", name, i), "after-concurrent-phase", probeBs[i%len(probeBs)])
 				}
 				conn.Close()
